@@ -38,7 +38,8 @@ class Attribute(dict):
     @property
     def classes(self) -> list[str]:
         """Return 'class' attribute as list."""
-        return self["class"].split()
+        # (a valueless attribute, `<div class>`, has the value None)
+        return (self["class"] or "").split()
 
     def __str__(self) -> str:
         """Return a htmlized representation for attributes."""
